@@ -13,6 +13,8 @@ import numpy as np
 #import mesh
 
 class virtualmeth():
+    islinear = 1 # face values are linear functions of cell data (0 for limited methods)
+
     def __init__(self):
         self.gradmeth = 'none'
     
@@ -200,6 +202,8 @@ def superbee(a,b):
 
 class muscl(virtualmeth):
     "second order MUSCL method"
+    islinear = 0 # limiters are nonlinear
+
     def __init__(self, limiter=minmod):
         virtualmeth.__init__(self)
         self.gradmeth = 'face'
